@@ -728,18 +728,20 @@ class Table(Vector):
 		"""
 		# The addressed columns are written one after another. If a later column refuses
 		# its value, put the earlier ones back: a failed assignment changes nothing.
-		before = [(col, col._underlying, col._dtype, col._fp) for col in self._underlying]
+		before = [(col, col._underlying, col._dtype, col._fp, col.__class__) for col in self._underlying]
 		try:
 			self._assign_cells(key, value)
 		except Exception:
 			from .alias_tracker import _ALIAS_TRACKER
-			for col, und, dtype, fp in before:
+			for col, und, dtype, fp, cls in before:
 				if col._underlying is not und:
 					_ALIAS_TRACKER.unregister(col, id(col._underlying))
 					col._underlying = und
 					_ALIAS_TRACKER.register(col, id(und))
 				col._dtype = dtype
 				col._fp = fp
+				if col.__class__ is not cls:
+					col.__class__ = cls  # a date column promoted to datetime on the way is a date column again
 			raise
 
 	def _assign_cells(self, key, value):
